@@ -33,6 +33,7 @@ var (
 	seed    = flag.Uint64("seed", 1, "")
 	nLeb    = flag.Int("nleb", 400, "explicit LEB strings")
 	nValid  = flag.Int("nvalid", 60, "")
+	nValid2 = flag.Int("nvalid2", 60, "modules of the second generator")
 	nMut    = flag.Int("nmut", 400, "")
 	nRand   = flag.Int("nrand", 200, "")
 	par     = flag.Int("par", 4, "children in parallel")
@@ -84,7 +85,7 @@ type deathRec struct {
 
 func runMode() {
 	rng := c.NewRng(*seed)
-	inputs := genInputs(rng, *nValid, *nMut, *nRand, *probes)
+	inputs := genInputs(rng, *nValid, *nValid2, *nMut, *nRand, *probes)
 	path := fmt.Sprintf("%s/c03_inputs_%d_%d.jsonl", *work, *seed, os.Getpid())
 	f, err := os.Create(path)
 	if err != nil {
